@@ -177,7 +177,11 @@ fn drive_shared(mut it: Iter<'_, Tracked>, sel: &[Obs], script: &[Step]) -> R<()
                 if left > hi - lo {
                     return Err(format!("{st:?}: the iterator grew from {} to {left} elements", hi - lo));
                 }
-                crate::interp::side_dig(((hi - lo - left) as u64) << 1 | back as u64);
+                // how far the search got is part of the trace compared between builds (C18); the state an iterator is left
+                // in when user code panics is not documented, so it is not demanded to be independent of the layout (C04)
+                if !crate::interp::layout_neutral() {
+                    crate::interp::side_dig(((hi - lo - left) as u64) << 1 | back as u64);
+                }
                 if back {
                     hi = lo + left
                 } else {
